@@ -9,6 +9,7 @@ import CfVerif.Proofs.C09Match
 import CfVerif.Proofs.C09Link
 import CfVerif.Proofs.C09Layout
 import CfVerif.Proofs.C09Exact
+import CfVerif.Proofs.C09Resid
 namespace CfVerif.C09
 open CfVerif
 
@@ -113,6 +114,24 @@ theorem gen_guess_and_condense :
     (∀ e ∈ ["bss, cf_poses = cls._params_to_struct(lsq_result.x, solution)", "bs_id = solution.bs_index_to_id[index]",
         "solution.bs_poses[bs_id] = cls._params_to_pose(pose, solution)"], e ∈ Gen.C09.condenseAssigns) ∧
     (∀ e ∈ ["for i in range(len(matched_samples) - 1)", "for (index, pose) in enumerate(bss)"], e ∈ Gen.C09.condenseFors) := by decide
+
+set_option maxRecDepth 20000 in
+theorem gen_residual_numerics :
+    Gen.C09.rotateTranslateAssigns = ["theta = np.linalg.norm(rot_vecs, axis=1)[:, np.newaxis]", "v = rot_vecs / theta",
+      "v = np.nan_to_num(v)", "dot = np.sum(points * v, axis=1)[:, np.newaxis]", "cos_theta = np.cos(theta)", "sin_theta = np.sin(theta)"] ∧
+    Gen.C09.rotateTranslateReturns = ["return cos_theta * points + sin_theta * np.cross(v, points) + dot * (1 - cos_theta) * v + translations"] ∧
+    Gen.C09.calcAnglePairsAssigns = ["sensor_points = cls._rotate_translate(sens_pos_p_a, cf_p_a[:, :defs.len_rot_vec], cf_p_a[:, defs.len_rot_vec:])",
+      "points_bs_ref = cls._rotate_translate(sensor_points - bs_p_a[:, defs.len_rot_vec:defs.n_params_per_bs], -bs_p_a[:, :defs.len_rot_vec], np.zeros_like(bs_p_a[:, defs.len_rot_vec:defs.n_params_per_bs]))",
+      "angle_pair = np.arctan2(points_bs_ref[:, 1:3], points_bs_ref[:, 0, np.newaxis])"] ∧
+    Gen.C09.calcAnglePairsReturns = ["return angle_pair"] ∧
+    (∀ e ∈ ["angles = np.ravel(angle_pairs)", "diff = angles - target_angles", "residual = np.tan(diff) * distances_to_cfs"],
+      e ∈ Gen.C09.calcResidualAssigns) ∧
+    Gen.C09.fromCartAssigns = ["lh_v1_horiz_angle = math.atan2(cart_vector[1], cart_vector[0])",
+      "lh_v1_vert_angle = math.atan2(cart_vector[2], cart_vector[0])"] ∧
+    Gen.C09.fromCartReturns = ["return cls(lh_v1_horiz_angle, lh_v1_vert_angle)"] ∧
+    (∀ e ∈ ["result[i * 2] = vector.lh_v1_horiz_angle", "result[i * 2 + 1] = vector.lh_v1_vert_angle"], e ∈ Gen.C09.angleListAssigns) ∧
+    Gen.C09.poseRotateTranslateReturns = ["return np.dot(self.rot_matrix, point) + self.translation"] ∧
+    Gen.C09.poseInvRotateTranslateReturns = ["return np.dot(np.transpose(self.rot_matrix), point - self.translation)"] := by decide
 
 /-! ## T1 — sample matcher -/
 
@@ -476,6 +495,33 @@ theorem sparsity_covers_dependencies (rowFn : Nat → List α → List α → Na
 
 end T4dep
 
+/-! ## T3 — the residual vanishes at the truth (over any field; numpy's primitives abstract) -/
+
+section T3
+variable {α : Type} [Field α]
+
+/-- `-rotation vector == inverse rotation` (comment in `_calc_angle_pairs`): as `_rotate_translate` computes it, the
+rotation by `-r` is the TRANSPOSE of the rotation by `r` (`⟨R(r) p, q⟩ = ⟨p, R(-r) q⟩`), and the zero rotation
+vector (CF sample 0, `nan_to_num` branch) is the identity. -/
+theorem negated_rotvec_is_transpose (tr : Trig α) (h : TrigLaws tr) (r p q : V3 α) :
+    (rotBy tr r p).dot q = p.dot (rotBy tr r.neg q) ∧ rotBy tr V3.zero p = p :=
+  ⟨rotBy_adjoint tr h r p q, rotBy_zero tr h p⟩
+
+/-- **Zero residual at the truth.**  Let a sensor be measured without error the way the physical model (and the
+repo's test fixture) says: sensor position in the room `R(r_cf)·s + t_cf` (`Pose.rotate_translate`), seen from the
+base station `R(r_bs)ᵀ·(that − t_bs)` (`Pose.inv_rotate_translate`, `RT` = any transpose of the base station's
+rotation), sweep angles `(atan2(y, x), atan2(z, x))` (`from_cart`, `angle_list` order).  Then the two residual
+rows of that sensor at the TRUE parameters are 0 — for every base-station and CF pose, every sensor, in any
+field, for any `norm/cos/sin/atan2/tan` satisfying `TrigLaws`.  With `cf = (0, 0)` this is the pinned first sample. -/
+theorem zero_residual_at_truth (tr : Trig α) (h : TrigLaws tr) (bs cf : V3 α × V3 α) (sens : V3 α)
+    (RT : V3 α → V3 α) (hRT : ∀ p q, (rotBy tr bs.1 p).dot q = p.dot (RT q)) (target : α × α)
+    (htarget : target = fromCartAngles tr (RT ((poseApply (rotBy tr cf.1) cf.2 sens).sub bs.2))) :
+    residualPair tr bs cf sens target = (0, 0) := by
+  rw [htarget, transpose_unique tr h bs.1 RT hRT, ← calcAnglePair_eq]
+  exact residualPair_zero tr h bs cf sens
+
+end T3
+
 /-! ## T5 — IPPE <-> CF axis permutations -/
 
 /-- Both permutation matrices are proper rotations (orthogonal, determinant +1) and mutual inverses. -/
@@ -533,6 +579,9 @@ example : PoseLaws (P := Int) ⟨fun g c u => g - c + u, fun g c => g - c, fun l
     cases l with
     | nil => exact absurd rfl hl
     | cons a r => simpa using h a (by simp)⟩
+/-- `TrigLaws` is satisfiable (a degenerate instance over ℚ; the real functions satisfy the same five facts) -/
+example : TrigLaws (α := ℚ) ⟨fun _ => 0, fun _ => 1, fun _ => 0, fun _ _ => 0, fun a => a, fun a => decide (a = 0)⟩ :=
+  ⟨fun _ => rfl, rfl, fun a => by simp, rfl, rfl⟩
 example : PickValid (fun l => l.headD 0) := by
   intro l hl; cases l with
   | nil => exact absurd rfl hl
